@@ -224,6 +224,7 @@ class FnAnalysis(Analysis):
         self.pending: List[Exc] = []
         self.collect_puts = None
         self.awaited: set = set()
+        self.coros: Dict[str, ast.Call] = {}
         self.puts: List[Val] = []
         self.ret: Optional[Val] = None
         self.local_defs: Dict[str, ast.AST] = dict(R.local_scopes.get(fn.qual, {}))
@@ -494,6 +495,10 @@ class FnAnalysis(Analysis):
                     and value_node.slice.upper.id != target.id:
                 cut = value_node.slice.upper.id          # y = x[:n] with len(x) >= n: len(y) == n
             st.env[target.id] = v
+            if v.kind == "coro" and isinstance(value_node, ast.Call):
+                self.coros[target.id] = value_node          # x = coro(...): the call runs where x is awaited
+            else:
+                self.coros.pop(target.id, None)
             if cut is not None:
                 st.lenge = frozenset(p for p in st.lenge if target.id not in p) | {("=", target.id, cut)}
             elif st.lenge:
@@ -1371,7 +1376,15 @@ class FnAnalysis(Analysis):
 
     def v_Await(self, e, st):
         self.awaited.add(id(e.value))
-        v = self.val(e.value, st)
+        if isinstance(e.value, ast.Name) and e.value.id in self.coros and st.env.get(e.value.id, CLEAN).kind == "coro":
+            call = self.coros[e.value.id]
+            self.awaited.add(id(call))
+            try:
+                v = self.val(call, st)          # `x = coro(...)` ... `await x`: the coroutine runs here
+            finally:
+                self.awaited.discard(id(call))
+        else:
+            v = self.val(e.value, st)
         if v.kind == "coro:conn":
             if self.R.cfg.env:
                 self.pending.append(Exc("OSError").with_(site=self.site(e), chain=self.chain, why="connect failure (environment)"))
